@@ -481,6 +481,97 @@ def token_raw_client(rng, idx, msgb, fz):
     return {'kind': 'raw', 'name': 'r%d' % idx, 'delay_ms': rng.choice([0, 100, 400]), 'ops': ops}
 
 
+def barrier_client(rng, idx, msgb, delay):
+    """one process with 2-4 connections made one after the other (neighbours in the daemon's client list) which fail or close
+    back to back, so that the daemon finds several dead clients in one pass of its loop; repeated a few times"""
+    m, T = msgb, msgb.T
+    svc = rng.choice([pref.VPS, pref.WSS625, pref.CC625, pref.VPS | pref.WSS625])
+    creq = m.raw(T['CONNECT_REQ'], m.connect_req(svc, name=b'multi%d' % idx)).hex()
+    ops = []
+    for rep in range(rng.choice([4, 5, 6, 8])):
+        n = rng.choice([2, 2, 3, 3, 4])
+        ops.append(['C', n, creq, {'t': 'CONNECT_REQ', 'benign': True, 'services': svc}])
+        ops.append(['R', rng.choice([10, 30, 80])])
+        ent, kinds = [], []
+        for i in range(n):
+            k = rng.choice(['close', 'close', 'close_req', 'wrong_state', 'daemon_type', 'unknown_type', 'refused_len', 'keep'])
+            if k == 'keep' and (i == 0 or kinds.count('keep')):
+                k = 'close'
+            kinds.append(k)
+            if k == 'close':
+                ent.append('-')
+            elif k == 'keep':
+                ent.append('=')
+            elif k == 'close_req':
+                ent.append(m.raw(T['CLOSE_REQ'], b'').hex())
+            elif k == 'wrong_state':
+                ent.append(m.raw(T['CONNECT_REQ'], m.connect_req(svc)).hex())
+            elif k == 'daemon_type':
+                ty = rng.choice(['CONNECT_CNF', 'CHN_TOKEN_IND', 'SERVICE_CNF', 'DAEMON_PID_CNF'])
+                ent.append(m.raw(T[ty], bytes(m.L.get(ty, {}).get('size', 0))).hex())
+            elif k == 'unknown_type':
+                ent.append(m.raw(rng.choice([24, 30, 255, 0x7fffffff]), bytes(rng.choice([0, 8, 40]))).hex())
+            else:
+                ent.append(m.raw(T['SERVICE_REQ'], m.service_req(svc) + b'\0\0\0\0').hex())
+        ops.append(['B', ent, {'t': 'barrier', 'fault': 'back to back: ' + '+'.join(kinds), 'fault_kills': True, 'services': svc}])
+        ops.append(['R', rng.choice([30, 60, 120])])
+    ops.append(['X'])
+    return {'kind': 'raw', 'name': 'm%d' % idx, 'delay_ms': delay, 'ops': ops}
+
+
+def reclaim_window_clients(rng, msgb, total):
+    """A holds the token; B asks (A gets CHN_RECLAIM_REQ) and A deliberately does not answer for d ms; inside that window C asks
+    too (or B asks again); then A confirms / returns.  Nobody withdraws inside the window, so finding F14 is not in reach."""
+    m, T = msgb, msgb.T
+    d = rng.choice([300, 450, 700])
+    t_b = rng.choice([400, 500])
+    x = rng.choice([40, 100, d // 2, d - 120])
+    clients = []
+
+    def con(n, svc):
+        return _send(m.raw(T['CONNECT_REQ'], m.connect_req(svc, name=n)), t='CONNECT_REQ', benign=True, services=svc)
+
+    # A
+    if rng.random() < 0.6:
+        ans = rng.choice(['cnf', 'cnf', 'return'])
+        a_ops = [['c'], con(b'holderA', pref.VPS), ['w', T['CONNECT_CNF'], 1000],
+                 _send(m.raw(T['CHN_TOKEN_REQ'], m.token_req(1, 1, 0x10, 0)), t='CHN_TOKEN_REQ', ask=True, rel=True),
+                 ['w', T['CHN_TOKEN_CNF'], 500], ['w', T['CHN_RECLAIM_REQ'], 1500], ['r', d]]
+        if ans == 'cnf':
+            a_ops.append(_send(m.raw(T['CHN_RECLAIM_CNF'], b''), t='CHN_RECLAIM_CNF'))
+        else:
+            a_ops.append(_send(m.raw(T['CHN_NOTIFY_REQ'], m.notify_req(2)), t='CHN_NOTIFY_REQ', rel=True))
+        a_ops += [['r', 400], ['x']]
+        clients.append({'kind': 'raw', 'name': 'A', 'delay_ms': 150, 'ops': a_ops})
+    else:
+        clients.append({'kind': 'lib', 'name': 'A', 'delay_ms': 150,
+                        'ops': [['C', pref.VPS, 0, 5, 0], ['O', 0], ['G', 0], ['Q', 1, 0x10, 0, 1], ['T', t_b - 150 + d], ['H', 2], ['T', 400], ['D']]})
+
+    def asker(name, sub, t_req, again=None):
+        if rng.random() < 0.5:
+            ops = [['C', rng.choice([pref.VPS, pref.WSS625, pref.TTX_B]), 0, 5, 0], ['O', 1], ['G', 0], ['Q', 1, 0, 0, 0], ['T', t_req - 20],
+                   ['Q', 1, sub, 0, 1]]
+            if again:
+                ops += [['T', again], ['Q', 1, sub, 0, 1]]
+            ops += [['W', d + 600], ['T', 100], ['H', 1], ['T', 200], ['D']]
+            return {'kind': 'lib', 'name': name, 'delay_ms': 0, 'ops': ops}
+        ops = [['c'], con(name.encode(), pref.VPS), ['w', T['CONNECT_CNF'], 1000],
+               _send(m.raw(T['CHN_TOKEN_REQ'], m.token_req(1, 0, 0, 0)), t='CHN_TOKEN_REQ', ask=False, rel=True), ['r', t_req - 20],
+               _send(m.raw(T['CHN_TOKEN_REQ'], m.token_req(1, 1, sub, 0)), t='CHN_TOKEN_REQ', ask=True, rel=True)]
+        if again:
+            ops += [['r', again], _send(m.raw(T['CHN_TOKEN_REQ'], m.token_req(1, 1, sub, 0)), t='CHN_TOKEN_REQ', ask=True, rel=True)]
+        ops += [['w', T['CHN_TOKEN_IND'], d + 600], ['r', 100],
+                _send(m.raw(T['CHN_NOTIFY_REQ'], m.notify_req(1)), t='CHN_NOTIFY_REQ', rel=True, release=True), ['r', 200], ['x']]
+        return {'kind': 'raw', 'name': name, 'delay_ms': 0, 'ops': ops}
+
+    if rng.random() < 0.75:
+        clients.append(asker('B', 0x20, t_b))
+        clients.append(asker('C', rng.choice([0x30, 0x18, 0x40]), t_b + x))
+    else:
+        clients.append(asker('B', 0x20, t_b, again=x))
+    return clients, max(total, t_b + d + 900)
+
+
 def gen_c19(rng, tier, skip, msgb):
     case = common(rng, 'C19', skip, allow_tsan=False)
     fz = Fuzz(rng, msgb, skip)
@@ -488,11 +579,34 @@ def gen_c19(rng, tier, skip, msgb):
     if case['variant'] == 'thread' and (case.get('buffers') or 8) < 8:
         case['buffers'] = rng.choice([8, 16, 32])
     thread_period(case, 4)
-    token_case = rng.random() < 0.4
+    r_kind = rng.random()
+    token_case = r_kind < 0.3
+    window_case = 0.3 <= r_kind < 0.42
+    barrier_case = 0.42 <= r_kind < 0.56
     clients = []
     for i in range(rng.choice([1, 1, 2])):
-        clients.append(witness(rng, i, total, token_case))
-    if token_case:
+        clients.append(witness(rng, i, total, token_case or window_case))
+    if window_case:
+        case['kind'] = 'reclaim-window'
+        more, total = reclaim_window_clients(rng, msgb, total)
+        for w in clients:
+            w['ops'][-2] = ['T', total]
+        clients += more
+    elif barrier_case:
+        case['kind'] = 'barrier'
+        total = max(total, 2200)
+        for w in clients:
+            w['ops'][-2] = ['T', total]
+        clients.append(barrier_client(rng, 0, msgb, rng.choice([150, 250])))
+        if rng.random() < 0.4:
+            clients.append(barrier_client(rng, 1, msgb, rng.choice([160, 400, 700])))
+        if rng.random() < 0.5:
+            # somebody who connects afterwards must still be served
+            clients.append({'kind': 'lib', 'name': 'late', 'delay_ms': rng.choice([1200, 1900]),
+                            'ops': [['C', services(rng, allow_unsupported=False), 0, 5, 0], ['R', 20], ['D']]})
+        if rng.random() < 0.3:
+            clients.append(fz.client(5))
+    elif token_case:
         case['kind'] = 'token'
         total = max(total, 1800)
         clients[0]['ops'][-2] = ['T', total]
